@@ -8,6 +8,9 @@ import atexit, json, os, random, re, shutil, subprocess, sys, time, hashlib, con
 
 VERIF = os.path.dirname(os.path.dirname(os.path.abspath(__file__)))
 REPO = os.environ.get("VERIF_REPO", "/repo")
+# "corrupt": ./check --selftest - one field of one recorded observation is falsified before TLC sees it; the
+# check must then report a violation (demonstrates that the verdicts come from the recorded executions)
+SELFTEST = os.environ.get("VERIF_SELFTEST", "")
 SPEC = os.path.join(VERIF, "spec")
 HARNESS = os.path.join(VERIF, "harness")
 NCPU = os.cpu_count() or 4
